@@ -1,5 +1,5 @@
 (* Properties_C15.v — C15: destroy applies the stop policy; releases everything.  Theorems only. *)
-From Verif Require Import Lib WorldSpec WorldSpec2 LibSpec LibSpec2 WaitSpec StopSpec TimeSpec.
+From Verif Require Import Lib WorldSpec WorldSpec2 LibSpec LibSpec2 WaitSpec ParentSpec StopSpec TimeSpec FdSpec HeapSpec MemSpec.
 Import Lib.
 From Coq Require Import Lia.
 Local Open Scope Z_scope.
@@ -63,3 +63,23 @@ Print Assumptions C15_destroy_stop_status_is_reaped_childs.
 Theorem C15_destroy_polls_bounded : forall p, emits (reproc_destroy p) pollok.
 Proof. exact ok_reproc_destroy. Qed.
 Print Assumptions C15_destroy_polls_bounded.
+
+(* RELEASES EVERYTHING, descriptors: in whatever state the handle is between two calls (invariant
+   HI: it owns exactly its four pipe ends, all else in the caller's table is as at the beginning),
+   destroy -- stop sequence included, under every fault plan, failing closes included -- leaves
+   the caller's descriptor table exactly as it was before the handle existed *)
+Theorem C15_destroy_releases_descriptors : forall T c p w u w',
+  HI T c p w -> reproc_destroy p w = Ret u w' -> pr_fds (curp w') = T.
+Proof. exact reproc_destroy_restores. Qed.
+Print Assumptions C15_destroy_releases_descriptors.
+(* the invariant holds for a handle as reproc_new makes it and is kept by every call *)
+Theorem C15_handle_invariant_kept : forall T c ck ops p w p' w',
+  HN T c p w -> (forall q, kp c (ck q)) -> run_hops ck p ops w = Ret p' w' -> HN T c p' w'.
+Proof. intros T c ck ops p w p' w'. apply HN_run_hops. Qed.
+Print Assumptions C15_handle_invariant_kept.
+(* RELEASES EVERYTHING, memory: the handle's own block is released, nothing else is touched *)
+Theorem C15_destroy_releases_the_handle_block : forall L p w u w',
+  hq L [] w -> L (h_blk p) = true -> h_blk p <> 0 -> reproc_destroy p w = Ret u w' ->
+  forall id, heap_live id w' = L id && negb (id =? h_blk p).
+Proof. intros L p w u w' Hq HL Hnz E id. exact (hq_end _ _ (O_reproc_destroy _ _ _ _ _ Hq HL Hnz E) id). Qed.
+Print Assumptions C15_destroy_releases_the_handle_block.
